@@ -4,6 +4,7 @@ Property theorems only; helper lemmas live in `RtcModel/Lemmas/SctpSend.lean`.
 -/
 import RtcModel.Lemmas.SctpSend
 import RtcModel.Lemmas.SctpFrag
+import RtcModel.SctpTrace
 
 namespace RtcModel.Theorems.C13
 open RtcModel.Sctp RtcModel.Generated
@@ -125,6 +126,57 @@ theorem rexmit_only_marked : ∀ (q : List SRec) (flight now : Nat),
       | inl e => subst e; simpa using h
       | inr e => exact b x e
 
+
+/-- **model_traces_wireOk** (control packets): a datagram the model's `send_packet_with_tag`
+builds with the peer's announced tag, within the MTU and carrying no INIT / INIT-ACK / DATA chunk,
+passes the decidable wire predicate `wireStep` that the driver evaluates on every captured datagram
+(size, CRC-32C, verification tag) and leaves the per-side TSN bookkeeping untouched. -/
+theorem model_traces_wireOk (w : WireSt) (idx s : Nat) (src dst : UInt16) (tag : UInt32) (chunks : List Bytes)
+    (hv : w.viol = none) (hpeer : (w.side (1 - s)).tag = some tag)
+    (hlen : (encPacket src dst tag chunks).length ≤ sctpMaxPacket)
+    (hk : ∀ c ∈ parseChunks chunks.flatten.length chunks.flatten,
+      c.ty.toNat ≠ ctInit ∧ c.ty.toNat ≠ ctInitAck ∧ c.ty.toNat ≠ ctData) :
+    (wireStep w idx s (encPacket src dst tag chunks)).viol = none ∧
+    (wireStep w idx s (encPacket src dst tag chunks)).a = w.a ∧
+    (wireStep w idx s (encPacket src dst tag chunks)).b = w.b := by
+  -- the chunk fold changes nothing
+  have key : ∀ (cs : List RawChunk) (w0 : WireSt), w0.viol = none →
+      (∀ c ∈ cs, c.ty.toNat ≠ ctInit ∧ c.ty.toNat ≠ ctInitAck ∧ c.ty.toNat ≠ ctData) →
+      cs.foldl (wireChunk idx s) w0 = w0 := by
+    intro cs
+    induction cs with
+    | nil => intro w0 _ _; rfl
+    | cons c rest ih =>
+      intro w0 h0 hcs
+      obtain ⟨h1, h2, h3⟩ := hcs c (by simp)
+      have hstep : wireChunk idx s w0 c = w0 := by
+        have e1 : (c.ty.toNat == ctInit) = false := by simpa using h1
+        have e2 : (c.ty.toNat == ctInitAck) = false := by simpa using h2
+        have e3 : (c.ty.toNat == ctData) = false := by simpa using h3
+        simp only [wireChunk, h0, Option.isSome_none, Bool.false_eq_true, if_false, e1, e2, e3, Bool.or_self]
+      simp only [List.foldl_cons, hstep]
+      exact ih w0 h0 (fun c' hc' => hcs c' (by simp [hc']))
+  -- the packet-level step on a state without violation whose peer announced `tag`
+  have kp : ∀ (w1 : WireSt), w1.viol = none → (w1.side (1 - s)).tag = some tag →
+      wirePacket w1 idx s { srcPort := src, dstPort := dst, vtag := tag, chunks := parseChunks chunks.flatten.length chunks.flatten } = w1 := by
+    intro w1 h1 h2
+    have hinit : isInitPacket (parseChunks chunks.flatten.length chunks.flatten) = false := by
+      cases hc : parseChunks chunks.flatten.length chunks.flatten with
+      | nil => rfl
+      | cons c rest =>
+        have := (hk c (by rw [hc]; simp)).1
+        simpa [isInitPacket] using this
+    simp only [wirePacket, hinit, Bool.false_eq_true, if_false, h2, beq_self_eq_true, Bool.not_true]
+    exact key _ w1 h1 hk
+  have hsz : ¬ ((encPacket src dst tag chunks).length > sctpMaxPacket) := by omega
+  have hw1 : wireStep w idx s (encPacket src dst tag chunks) =
+      { w with packets := w.packets + 1, maxLen := max w.maxLen (encPacket src dst tag chunks).length } := by
+    simp only [wireStep, hv, Option.isSome_none, Bool.false_eq_true, if_false, hsz, crc_accepts_own]
+    apply kp
+    · simpa using hv
+    · simpa [WireSt.side] using hpeer
+  rw [hw1]
+  exact ⟨hv, rfl, rfl⟩
 
 /-! ### TSNs -/
 
